@@ -10,7 +10,8 @@ use crate::engine::{CaseResult, Cx, Prop, Tier};
 use crate::format;
 use crate::history::{History, Op, StepKind, World, history_strategy};
 use crate::hooks::{Ctl, Plan};
-use crate::ops::{self, Hook, Rt};
+use crate::ops::{self, Hook, Opts, Rt};
+use crate::tree::Tree;
 use crate::props::c02::hist_cfg;
 use crate::{ensure, fail};
 
@@ -87,7 +88,7 @@ fn compare(a: &BTreeMap<String, Vec<u8>>, b: &BTreeMap<String, Vec<u8>>, step: u
 }
 
 fn run(case: &Case, cx: &mut Cx) -> CaseResult {
-    let mut w = World::new(&cx.scratch, &case.hist.initial);
+    let mut w = World::for_history(&cx.scratch, &case.hist);
     let arch_b = cx.dir("arch_b");
     let c = ops::create_archive(&arch_b);
     ensure!(c.clean(), "C17/create", "{}", c.describe());
@@ -169,6 +170,10 @@ fn run(case: &Case, cx: &mut Cx) -> CaseResult {
                 let hook: Hook = Some(ctl as Arc<dyn conserve::transport::verif::Interceptor>);
                 let r = ops::backup_rt(rt_b, &arch_b, &hook, &w.src, *opts, &[]);
                 ensure!(r.panic.is_none(), "C17/backup-panic", "step {i} replay B: {}", r.describe());
+                // the same renumbering of the first version as in replay A
+                if case.hist.first_band_id != 0 && ids_before.is_empty() && arch_b.join("b0000").is_dir() {
+                    std::fs::rename(arch_b.join("b0000"), arch_b.join(format::band_dirname(case.hist.first_band_id))).unwrap();
+                }
                 backups += 1;
             }
             (StepKind::Delete { requested, dry_run, .. }, _) => {
@@ -216,7 +221,8 @@ fn enumerate(_tier: Tier, idx: u32, of: u32, cx: &mut Cx) -> CaseResult {
         std::fs::create_dir_all(&sub).unwrap();
         let mut cx2 = crate::engine::sub_cx(cx, sub.clone());
         let case = Case {
-            hist: History { initial: tree, ops: vec![Op::Backup(opts)] },
+            // two backups: the second is incremental over the first
+            hist: History { initial: tree, ops: vec![Op::Backup(opts), Op::Backup(Opts { hunk: 1000, ..opts })], first_band_id: 0 },
             workers: 4,
             perturb: vec![3, 0, 1, 2, 0, 0, 1],
             fail_block_removal: None,
@@ -229,6 +235,51 @@ fn enumerate(_tier: Tier, idx: u32, of: u32, cx: &mut Cx) -> CaseResult {
         cx.add_evals(1);
         cx.inner_nontrivial += 1;
     }
+    // Independence from the wall clock: a file whose mtime lies two seconds ahead of the clock
+    // when the first replay runs and behind it when the second one runs. (The only place where
+    // a check reads the clock: that is the point of this probe.)
+    crate::engine::heartbeat();
+    let now = std::time::SystemTime::now().duration_since(std::time::UNIX_EPOCH).unwrap().as_secs() as i64;
+    let m = crate::probes::plain_meta();
+    let mut t = Tree(Default::default());
+    t.0.insert("/".into(), crate::tree::Node { kind: crate::tree::Kind::Dir, meta: crate::tree::Meta { mode: 0o755, ..m } });
+    for (name, pool, dt) in [("a", 2u8, -100i64), ("b-future", 3, 2), ("c", 4, -50)] {
+        t.0.insert(
+            format!("/{name}"),
+            crate::tree::Node { kind: crate::tree::Kind::File { pool, len: 300 }, meta: crate::tree::Meta { mtime_s: now + dt, ..m } },
+        );
+    }
+    let sub = cx.dir("wall-clock");
+    std::fs::create_dir_all(&sub).unwrap();
+    let src = sub.join("src");
+    crate::tree::materialise(&t, &src);
+    let o = Opts { hunk: 100, block: 1 << 16, cap: 1 << 16 };
+    let mut trees = vec![];
+    for (i, name) in ["arch_a", "arch_b"].iter().enumerate() {
+        if i == 1 {
+            // let the clock pass the file's mtime
+            let target = now + 3;
+            while (std::time::SystemTime::now().duration_since(std::time::UNIX_EPOCH).unwrap().as_secs() as i64) < target {
+                std::thread::sleep(std::time::Duration::from_millis(100));
+                crate::engine::heartbeat();
+            }
+        }
+        let arch = sub.join(name);
+        ensure!(ops::create_archive(&arch).clean(), "C17/create", "probe");
+        for _ in 0..2 {
+            let b = ops::backup(&arch, &None, &src, o, &[]);
+            ensure!(!ops::backup_reported_error(&b), "C17/probe-wall-clock/backup", "{}", b.describe());
+        }
+        trees.push(format::raw_tree(&arch));
+    }
+    compare(&trees[0], &trees[1], 1).map_err(|mut f| {
+        f.signature = format!("{}/probe-wall-clock", f.signature);
+        f.message = format!("replays two seconds before and one second after a file's mtime differ: {}", f.message);
+        f
+    })?;
+    crate::engine::force_remove(&sub);
+    cx.add_evals(1);
+    cx.inner_nontrivial += 1;
     Ok(())
 }
 
@@ -236,7 +287,7 @@ pub fn prop() -> Prop<Case> {
     Prop {
         id: "C17",
         level: "exploration",
-        rule: "case = (history as C02 with <=10 ops quick / <=20 thorough, worker count in {1,2,4}, 0-23 perturbation bytes). Every step is applied to the one source and then to two fresh archives: A on a current-thread runtime with serialized storage operations, B on a multi-thread runtime with that many workers, storage operations not serialized (conserve's concurrent listing/validation tasks really overlap) and each preceded by a yield/sleep chosen by the perturbation bytes; interruptions are addressed by the ordinal of the mutating operation in both; in 30% of cases every delete/gc step additionally has one failing block removal, addressed by path (the i-th of the sorted blocks the delete is about to remove), identical in both replays. After every archive operation the two directories must have the same relative file set and byte-identical contents, except that start_time is removed from parsed BANDHEADs and end_time from parsed BANDTAILs. Non-trivial = >=2 backups, some band with >=2 hunks and some combined block; distinct by case hash; evaluations = archive-state comparisons; plus two fixed scale probes (10 015 hunks; multi-MiB blocks)",
+        rule: "case = (history as C02 with <=10 ops quick / <=20 thorough, worker count in {1,2,4}, 0-23 perturbation bytes). Every step is applied to the one source and then to two fresh archives: A on a current-thread runtime with serialized storage operations, B on a multi-thread runtime with that many workers, storage operations not serialized (conserve's concurrent listing/validation tasks really overlap) and each preceded by a yield/sleep chosen by the perturbation bytes; interruptions are addressed by the ordinal of the mutating operation in both; in 30% of cases every delete/gc step additionally has one failing block removal, addressed by path (the i-th of the sorted blocks the delete is about to remove), identical in both replays. After every archive operation the two directories must have the same relative file set and byte-identical contents, except that start_time is removed from parsed BANDHEADs and end_time from parsed BANDTAILs. Non-trivial = >=2 backups, some band with >=2 hunks and some combined block; distinct by case hash; evaluations = archive-state comparisons; plus fixed probes per run: two backups (the second incremental) of the 10 012-file tree and of the multi-MiB-block tree under both runtime flavours, and a wall-clock probe (two backups replayed two seconds before and one second after the mtime of one of the files)",
         assumptions: &[
             "evidence about independence from task scheduling (two runtime flavours + generated perturbations), not a proof over all schedules",
         ],
